@@ -12,7 +12,7 @@
       from the peer's KEXINIT on the first kex only (`setStrictMode` fails unless `reader.seqNum == 1`),
       the kex method then `Unmarshal`s exactly its expected message types, then NEWKEYS is required;
       after the first kex a later KEXINIT starts a re-key (no new strict detection).
-  The sequence number is a `Nat` here (Go: uint32); the statements are about fewer than 2^32 packets.
+  The sequence number is a `UInt32` with wrap-around, exactly as in Go.
 -/
 import XC.Basic
 namespace XC.C30
@@ -32,7 +32,7 @@ deriving Repr
 
 structure St where
   phase : Phase
-  seq : Nat                     -- reader.seqNum
+  seq : UInt32                  -- reader.seqNum (wraps)
   strict : Bool                 -- transport.strictMode
   initialDone : Bool            -- transport.initialKEXDone
 deriving DecidableEq, Repr
@@ -81,10 +81,13 @@ def step (cfg : Cfg) (s : St) (ty : UInt8) : St :=
 def run (cfg : Cfg) (s : St) (tys : List UInt8) : St := tys.foldl (step cfg) s
 
 /-- the write side: `connectionState.writePacket` -/
-def wstep (strict : Bool) (seq : Nat) (ty : UInt8) : Nat :=
+def wstep (strict : Bool) (seq : UInt32) (ty : UInt8) : UInt32 :=
   if ty == msgNewKeys && strict then 0 else seq + 1
 
 /-- what an honest peer delivers up to and including its NEWKEYS -/
 def honest (cfg : Cfg) : List UInt8 := msgKexInit :: (cfg.kexTypes ++ [msgNewKeys])
+
+/-- packets `transport.readPacket` drops outside the strict initial key exchange -/
+def keep (ty : UInt8) : Bool := !(ty == msgIgnore || ty == msgDebug)
 
 end XC.C30
